@@ -306,6 +306,7 @@ def run_c13(ctx, spec, out):
         pid = wb["id"]
         h.both({"op": "state", "peer": pid}, "state")
         nev = rng.choice([4, 8, 12, 25])
+        pstart = 1700000000
         mode = "ok"
         if rng.random() < 0.3:
             mode = rng.choice(["refuse", "garbage"])
@@ -321,9 +322,14 @@ def run_c13(ctx, spec, out):
             elif r < 0.7:
                 mode = rng.choice(["ok", "ok", "refuse", "garbage", "error500", "closeearly", "badheader", "truncate"])
                 h.both({"op": "mode", "backend": pid, "mode": mode})
-            elif r < 0.9:
+            elif r < 0.86:
                 h.query("GET hosts\nColumns: name state peer_key\nOutputFormat: wrapped_json\n\n", [wb], {"why": "client query"})
                 h.both({"op": "state", "peer": pid}, "state")
+            elif r < 0.93:
+                # the core behind the backend restarts while it stays reachable: the next update synchronises anew, and
+                # afterwards the backend has to be reported up again
+                pstart += rng.choice([7, 60])
+                h.both({"op": "mutate", "backend": pid, "changes": [{"table": "status", "key": {}, "set": {"program_start": pstart, "nagios_pid": 4242 + pstart % 1000}}]})
             else:
                 h.query("GET sites\nColumns: peer_key status\nOutputFormat: wrapped_json\n\n", [wb], {"why": "sites"})
         hists.append((h, wb))
@@ -351,6 +357,10 @@ def run_c13(ctx, spec, out):
             if a.get("ran") and a.get("err") == "" and st.get("status") == 0 and float(st.get("last_online_ago", 0)) > 0.01:
                 v.violations.append(("property", case, "step %d (%s): an update run succeeded and the backend is up, but its last successful contact is recorded %ss ago - the stale timeout will be counted from then"
                                      % (i, what, st.get("last_online_ago"))))
+                break
+            if a.get("ran") and a.get("err") == "" and (st.get("status") != 0 or st.get("last_error") or not st.get("has_data")):
+                v.violations.append(("property", case, "step %d (%s): an update run succeeded, but the backend is not reported up with a cleared error: status=%s last_error=%r has_data=%s"
+                                     % (i, what, st.get("status"), st.get("last_error"), st.get("has_data"))))
                 break
             if a.get("err") and stale is not None and not st.get("last_online_zero") and float(st.get("last_online_ago", 0)) > stale and (st.get("status") != 2 or st.get("has_data")):
                 v.violations.append(("property", case, "step %d (%s): the contact failed %ss after the last successful one (StaleBackendTimeout %s) but the backend is not down / keeps its data: status=%s has_data=%s"
@@ -471,9 +481,9 @@ def run_c12(ctx, spec, out):
                     changes.append({"table": t, "add": row})
             if changes:
                 h.both({"op": "mutate", "backend": pid, "changes": changes})
-                if rng.random() < 0.3:
-                    # shuffle the backend's row order (replies in any row order)
-                    pass
+            if rng.random() < 0.45:
+                # replies in any row order: the backend lists its comments / downtimes the other way round from now on
+                h.both({"op": "mutate", "backend": pid, "changes": [{"table": rng.choice(["comments", "downtimes"]), "reverse": True}]})
             h.both({"op": "advance", "seconds": rng.choice([5, 6, 9])})
             h.both({"op": "tick", "peer": pid}, "state")
             observe_queries(h, schema, wb, flags, ["comments", "downtimes"])
